@@ -1,4 +1,37 @@
-(* placeholder so that the pipeline can be exercised; replaced by the real theorems *)
-From SV Require Import Names Rep.
-Theorem C13_placeholder : True. Proof. exact I. Qed.
-Print Assumptions C13_placeholder.
+(* C13 -- a filtration is a monotone sequence of complexes indexed by birth.
+   Theorem statements only; proofs in FiltProofs.v.  Not proved (tested by the oracle with its
+   shadow log): closedness of each view, deletion of the whole star across indices, the results of
+   complexes(). *)
+From Coq Require Import String ZArith Bool Arith List.
+From SV Require Import Names NamesFacts ListFacts Rep Fresh Complex Atomic RepInv Homology Filtration FiltProofs.
+Import ListNotations.
+
+(* the complex seen at index i consists of exactly the simplices of the filtration whose birth
+   index is <= i *)
+Theorem C13_view :
+  forall f i s, In s (f_simplices (at_index f i) false) <->
+  In s (simplices (f_rep f) false) /\ containsSimplex (f_rep f) s = true /\
+  exists b, assoc s (f_appears f) = Some b /\ (b <= i)%Z.
+Proof. exact view_def. Qed.
+Print Assumptions C13_view.
+
+(* setIndex only moves the point of view *)
+Theorem C13_setIndex_view : forall f i b, f_simplices (f_setIndex f i) b = f_simplices (at_index f i) b.
+Proof. exact simplices_setIndex. Qed.
+Print Assumptions C13_setIndex_view.
+
+(* for i <= j the complex at i is a sub-family of the complex at j, for any indices (negative,
+   fractional, visited in any order) *)
+Theorem C13_monotone :
+  forall f i j s, (i <= j)%Z -> In s (f_simplices (at_index f i) false) -> In s (f_simplices (at_index f j) false).
+Proof. exact view_monotone. Qed.
+Print Assumptions C13_monotone.
+
+(* addedAtIndex: a successful add registers the index current at that moment and leaves every
+   other birth index alone *)
+Theorem C13_birth :
+  forall f fs id attr f' n, pinv (f_rep f) -> finv f -> f_addSimplex f fs id attr = (f', Ok n) ->
+  assoc n (f_appears f') = Some (f_index f) /\ f_index f' = f_index f /\
+  (forall s, s <> n -> assoc s (f_appears f') = assoc s (f_appears f)) /\ finv f'.
+Proof. exact add_registers_birth. Qed.
+Print Assumptions C13_birth.
